@@ -935,7 +935,31 @@ func (kc *kernelCtx) hooks(b *Block, ts *TypeSpec, recv string, inline map[strin
 		}
 		return nil
 	}
+	// an atomic field of ANOTHER object (reached through a pointer or a type assertion, not the receiver): the guarantee
+	// its type declares binds every writer, wherever the write is made (NewSubscriber* re-arming the status word of the
+	// subscriber it is handed)
+	foreignGuar := func(x *Exec, st *State, key, old, nu string, pos token.Pos) bool {
+		base, f := "", ""
+		if i := strings.Index(key, "->"); i > 0 {
+			base, f = key, key[i+2:]
+		} else if i := strings.Index(key, "^."); i > 0 {
+			base, f = key[:i+1], key[i+2:]
+		} else {
+			return false
+		}
+		if tn := st.Named["typeof:"+base]; tn != "" {
+			if ots := kc.types[tn]; ots != nil {
+				if a, ok := ots.Atomic[f]; ok && a[1] != "" {
+					x.obl(st, "guar:"+tn+"."+f, kc.evalOldNew(a[1], old, nu), "atomic write to a field of another object respects the guarantee its type declares: "+a[1], pos)
+				}
+			}
+		}
+		return true
+	}
 	if ts == nil {
+		h.AtomicWrite = func(x *Exec, st *State, key, old, nu string, pos token.Pos) {
+			foreignGuar(x, st, key, old, nu, pos)
+		}
 		return h
 	}
 	h.FieldAccess = func(x *Exec, st *State, key string, write bool, val *SVal, pos token.Pos) {
@@ -988,6 +1012,9 @@ func (kc *kernelCtx) hooks(b *Block, ts *TypeSpec, recv string, inline map[strin
 		return kc.evalOldNew(a[0], old, nu)
 	}
 	h.AtomicWrite = func(x *Exec, st *State, key, old, nu string, pos token.Pos) {
+		if foreignGuar(x, st, key, old, nu, pos) {
+			return
+		}
 		f, ok := fieldOf(key)
 		if !ok {
 			return
